@@ -10,6 +10,15 @@ classmethod or property getter by a wrapper that
   * runs the optional ``pre(args, kwargs)`` / ``post(result, args, kwargs)`` callbacks.  A callback
     may record a violation through the case context; it must not alter the result.
 
+Result retention (``retain=extractor``): the arrays / tables a call returned are kept alive together with
+a deep copy taken at return time; at the end of the unit in which the call was made and again at the end of
+the following unit (``Monitor.end_of_unit``) the live result is compared with that copy.  A result that
+changed after it was handed out - because a later call on other data wrote into the same buffer, or because
+it aliases state that something else edits - is reported as a violation ("results of earlier calls are never
+altered by later calls").  With ``scribble=True`` the arrays of a result are overwritten with garbage when it
+is finally dropped, as a caller who edits what was returned to them would do; later calls must not depend on
+memory that was handed out.
+
 References that were bound before attachment (``from .utils import ffill`` inside
 ``gemdat.transitions``, default arguments) are not affected by patching the defining module; use
 ``also=[(module, name), ...]`` to patch the importing modules as well.
@@ -20,6 +29,97 @@ import functools
 from collections import Counter, deque
 
 
+RETAIN_PER_LABEL_PER_UNIT = 48
+
+
+def _freeze(x):
+    import numpy as np
+
+    if isinstance(x, dict):
+        return {k: _freeze(v) for k, v in x.items()}
+    if isinstance(x, (list, tuple)):
+        return [_freeze(v) for v in x]
+    if isinstance(x, np.ndarray):
+        return np.array(x, copy=True)
+    try:
+        import pandas as pd
+
+        if isinstance(x, (pd.DataFrame, pd.Series)):
+            return x.copy(deep=True)
+    except Exception:  # noqa: BLE001
+        pass
+    import copy
+
+    return copy.deepcopy(x)
+
+
+def _difference(frozen, live, path='result'):
+    """None if the live value still equals the frozen copy, else where it differs."""
+    import numpy as np
+
+    if isinstance(frozen, dict):
+        if not isinstance(live, dict) or frozen.keys() != live.keys():
+            return f'{path}: keys changed'
+        for k in frozen:
+            d = _difference(frozen[k], live[k], f'{path}[{k!r}]')
+            if d:
+                return d
+        return None
+    if isinstance(frozen, list):
+        if not isinstance(live, (list, tuple)) or len(frozen) != len(live):
+            return f'{path}: length {len(frozen)} -> {len(live) if hasattr(live, "__len__") else "?"}'
+        for i, (a, b) in enumerate(zip(frozen, live)):
+            d = _difference(a, b, f'{path}[{i}]')
+            if d:
+                return d
+        return None
+    if isinstance(frozen, np.ndarray):
+        if not isinstance(live, np.ndarray) or frozen.shape != live.shape:
+            return f'{path}: shape {frozen.shape} -> {getattr(live, "shape", None)}'
+        eq = np.array_equal(frozen, live, equal_nan=True) if frozen.dtype.kind in 'fc' else np.array_equal(frozen, live)
+        if not eq:
+            neq = frozen != live
+            if frozen.dtype.kind in 'fc':
+                neq = neq & ~((frozen != frozen) & (live != live))
+            bad = np.argwhere(neq)
+            idx = tuple(int(i) for i in bad[0]) if len(bad) else ()
+            return f'{path}{list(idx)}: {frozen[idx]!r} -> {live[idx]!r} ({len(bad)} of {frozen.size} entries differ)'
+        return None
+    try:
+        import pandas as pd
+
+        if isinstance(frozen, (pd.DataFrame, pd.Series)):
+            return None if frozen.equals(live) else f'{path}: table changed'
+    except Exception:  # noqa: BLE001
+        pass
+    try:
+        return None if frozen == live or (frozen != frozen and live != live) else f'{path}: {frozen!r} -> {live!r}'
+    except Exception:  # noqa: BLE001
+        return None
+
+
+def _scribble(live):
+    """Overwrite the arrays of a result that is no longer needed (what a caller editing its result does)."""
+    import numpy as np
+
+    n = 0
+    if isinstance(live, dict):
+        for v in live.values():
+            n += _scribble(v)
+    elif isinstance(live, (list, tuple)):
+        for v in live:
+            n += _scribble(v)
+    elif isinstance(live, np.ndarray) and live.size and live.flags.writeable:
+        if live.dtype.kind == 'f':
+            live += 0.37
+            live *= -1.5
+            n = 1
+        elif live.dtype.kind in 'iu':
+            live += 7
+            n = 1
+    return n
+
+
 class Monitor:
     def __init__(self, log_size: int = 2000):
         self.calls: Counter = Counter()
@@ -28,9 +128,13 @@ class Monitor:
         self._undo: list = []
         self.enabled = True
         self.seq = 0
+        self.unit_no = 0
+        self._retained: list = []
+        self._retained_per_label: Counter = Counter()
+        self.retention = Counter()
 
     # ------------------------------------------------------------------------------------------
-    def _wrap_function(self, label, fn, pre, post):
+    def _wrap_function(self, label, fn, pre, post, retain=None, scribble=False):
         mon = self
 
         @functools.wraps(fn)
@@ -52,12 +156,44 @@ class Monitor:
             mon.events.append((seq, 'return', label))
             if post is not None:
                 post(result, args, kwargs)
+            if retain is not None and mon._retained_per_label[label] < RETAIN_PER_LABEL_PER_UNIT:
+                try:
+                    live = retain(result)
+                except Exception:  # noqa: BLE001  (an unexpected result shape is judged by the property's own oracle)
+                    live = None
+                if live is not None:
+                    mon._retained_per_label[label] += 1
+                    mon._retained.append([label, live, _freeze(live), mon.unit_no, scribble])
             return result
 
         wrapper.__gv_original__ = fn
         return wrapper
 
-    def attach(self, owner, name, pre=None, post=None, label=None, also=(), optional=False):
+    def end_of_unit(self, ctx, final=False):
+        """Compare every retained result with the copy taken when it was returned; drop (and scribble on) the
+        ones that have survived a whole further unit."""
+        keep, drop = [], []
+        for ent in self._retained:
+            label, live, frozen, unit, scribble = ent
+            why = _difference(frozen, live)
+            self.retention['retained_results_rechecked'] += 1
+            if why is not None:
+                ctx.violation(f'the result of {label} changed after it was returned to the caller ({why}); it was returned in unit #{unit} and re-read after the calls of unit #{self.unit_no}', {'label': label, 'returned': frozen, 'now': _freeze(live)})
+                continue
+            ctx.decided()
+            if unit < self.unit_no or final:
+                if scribble:
+                    drop.append(live)
+            else:
+                keep.append(ent)
+        # scribbling happens after every comparison (one array may be part of several retained results)
+        for live in drop:
+            self.retention['results_scribbled_on_after_use'] += _scribble(live)
+        self._retained = keep
+        self._retained_per_label.clear()
+        self.unit_no += 1
+
+    def attach(self, owner, name, pre=None, post=None, label=None, also=(), optional=False, retain=None, scribble=False):
         """Wrap ``owner.name``.  Returns True if attached."""
         label = label or f'{getattr(owner, "__name__", type(owner).__name__)}.{name}'
         try:
@@ -68,13 +204,13 @@ class Monitor:
                 return False
             raise
         if isinstance(raw, property):
-            new = property(self._wrap_function(label, raw.fget, pre, post), raw.fset, raw.fdel, raw.__doc__)
+            new = property(self._wrap_function(label, raw.fget, pre, post, retain, scribble), raw.fset, raw.fdel, raw.__doc__)
         elif isinstance(raw, classmethod):
-            new = classmethod(self._wrap_function(label, raw.__func__, pre, post))
+            new = classmethod(self._wrap_function(label, raw.__func__, pre, post, retain, scribble))
         elif isinstance(raw, staticmethod):
-            new = staticmethod(self._wrap_function(label, raw.__func__, pre, post))
+            new = staticmethod(self._wrap_function(label, raw.__func__, pre, post, retain, scribble))
         else:
-            new = self._wrap_function(label, raw, pre, post)
+            new = self._wrap_function(label, raw, pre, post, retain, scribble)
         setattr(owner, name, new)
         self._undo.append((owner, name, raw))
         for mod, nm in also:
@@ -103,3 +239,8 @@ class Monitor:
         for k in list(self.calls):
             self.calls[k] = 0
         self.raises.clear()
+        if self._retained:
+            self.end_of_unit(ctx, final=True)
+        for k, v in self.retention.items():
+            ctx.count(k, v)
+        self.retention.clear()
